@@ -6,4 +6,4 @@ From Coq Require Import ExtrOcamlBasic.
 From RX Require Import Val Syntax World Step Oracle.
 Extraction Language OCaml.
 
-Extraction "../ml/rxmodel.ml" run_scenario init_world run step uenc udec is_sub val_eqb obs_of_run c01_oracle ulog users contract_ok.
+Extraction "../ml/rxmodel.ml" run_scenario init_world run step uenc udec is_sub val_eqb obs_of_run c01_oracle ulog users contract_ok c02_oracle c02_loc_oracle.
